@@ -406,7 +406,7 @@ func (e *Exec) loopHeader(fr *frame, li *loopInfo, b, pred *ssa.BasicBlock, st *
 	e.evalPhis(b, pred, st)
 	vars := e.loopVars(fr, li, st)
 	for _, inv := range li.spec.Invariants {
-		g, err := e.evalSpecBool(inv.Expr, &specEnv{into: st, st: st, old: e.entry, vars: vars, oldVars: e.entryVars, fr: fr})
+		g, err := e.evalSpecBool(inv.Expr, &specEnv{into: st, st: st, old: e.entry, vars: vars, oldVars: e.entryVars, fr: fr, pkg: pkgOf(fr.fn)})
 		if err != nil {
 			e.errorf("%s: invariant %s: %v", name, inv.Label, err)
 			continue
@@ -421,7 +421,7 @@ func (e *Exec) loopHeader(fr *frame, li *loopInfo, b, pred *ssa.BasicBlock, st *
 		// termination measure
 		if li.spec.Decreases != nil {
 			if lc := st.inLoop[b]; lc != nil && lc.measure != nil {
-				m, err := e.evalSpec(li.spec.Decreases, &specEnv{into: st, st: st, old: e.entry, vars: vars, oldVars: e.entryVars, fr: fr})
+				m, err := e.evalSpec(li.spec.Decreases, &specEnv{into: st, st: st, old: e.entry, vars: vars, oldVars: e.entryVars, fr: fr, pkg: pkgOf(fr.fn)})
 				if err == nil {
 					e.oblige(st, name+"/decreases", e.propsFor(fr, "safety"), And(Lt(m.L[0], *lc.measure), Ge(*lc.measure, IntLit(0))), "termination measure decreases and is bounded below")
 				} else {
@@ -526,14 +526,14 @@ func (e *Exec) loopHeader(fr *frame, li *loopInfo, b, pred *ssa.BasicBlock, st *
 	}
 	vars = e.loopVars(fr, li, hst)
 	for _, inv := range li.spec.Invariants {
-		g, err := e.evalSpecBool(inv.Expr, &specEnv{into: hst, st: hst, old: e.entry, vars: vars, oldVars: e.entryVars, fr: fr})
+		g, err := e.evalSpecBool(inv.Expr, &specEnv{into: hst, st: hst, old: e.entry, vars: vars, oldVars: e.entryVars, fr: fr, pkg: pkgOf(fr.fn)})
 		if err == nil {
 			hst.pc = append(hst.pc, g)
 		}
 	}
 	lc := &loopCtx{}
 	if li.spec.Decreases != nil {
-		m, err := e.evalSpec(li.spec.Decreases, &specEnv{into: hst, st: hst, old: e.entry, vars: vars, oldVars: e.entryVars, fr: fr})
+		m, err := e.evalSpec(li.spec.Decreases, &specEnv{into: hst, st: hst, old: e.entry, vars: vars, oldVars: e.entryVars, fr: fr, pkg: pkgOf(fr.fn)})
 		if err == nil {
 			mm := e.ctx.def("measure", m.L[0])
 			lc.measure = &mm
